@@ -265,7 +265,6 @@ def ob_reducer_delete(nw: int, b0: bool, b1: bool, b2: bool, q: int, wid: int, l
     pre: _valid_j(nw, b0, b1, b2, q, wid) and q <= QMAX
     pre: 0 <= live <= 2 and 0 <= snap <= 2 and 0 <= outcome <= 3
     pre: snap >= 1 and (snap == live or snap > live)
-    pre: not (outcome == 0 and snap > live)  # TEMP-EXCLUDE
     post: _
     """
     # snap == live: the snapshot is current.  snap > live: another invocation popped the buffer since (consumed).
@@ -404,7 +403,6 @@ def ob_composed(nw: int, n: int, t0: int, t1: int, t2: int, t3: int, c0: int, c1
     pre: N_CHOICE >= 8 or (c6 == 0 and c7 == 0)
     pre: (n >= 4 or t3 == 0) and (n >= 3 or t2 == 0) and (n >= 2 or t1 == 0)
     pre: nw >= 2 or not incl_stale_commit
-    pre: not (incl_stale_commit)  # TEMP-EXCLUDE
     post: _
     """
     nw, n, exk = conc(nw, 1, 3), conc(n, 1, 4), conc(exk, 0, 1)
